@@ -338,7 +338,7 @@ func one(c *vlib.Ctx, cf config, sample bool) {
 func init() {
 	vlib.Register(&vlib.Check{
 		ID: "C22", Engine: "E2",
-		Rule: "finite space, fully enumerated in both tiers: the name vzzq is defined as every combination of {private: none / in the caller's module / only in another module} x {alias: none / -> itself / -> a name that is only an alias / -> a name that is an alias and a function / -> a function / -> a builtin / -> a private / -> an external, each alias carrying one extra argument} x {murex function} x {builtin registered with lang.DefineFunction} x {executable on a private PATH}, called from {the module directly, a function living in that module invoked from another module, a try block, a ${} subshell} with 0, 1 or 2 arguments; every definition prints its own kind, name and argument list; definitions are created and removed around each case; stdout must be the marker of the first match in the order private, alias (expanded once, target resolved as non-alias), function, builtin, external, or a clean error and no marker when nothing matches. Non-trivial = the name has at least two definitions or an alias (precedence or expansion actually decides the result)",
+		Rule:   "finite space, fully enumerated in both tiers: the name vzzq is defined as every combination of {private: none / in the caller's module / only in another module} x {alias: none / -> itself / -> a name that is only an alias / -> a name that is an alias and a function / -> a function / -> a builtin / -> a private / -> an external, each alias carrying one extra argument} x {murex function} x {builtin registered with lang.DefineFunction} x {executable on a private PATH}, called from {the module directly, a function living in that module invoked from another module, a try block, a ${} subshell} with 0, 1 or 2 arguments; every definition prints its own kind, name and argument list; definitions are created and removed around each case; stdout must be the marker of the first match in the order private, alias (expanded once, target resolved as non-alias), function, builtin, external, or a clean error and no marker when nothing matches. Non-trivial = the name has at least two definitions or an alias (precedence or expansion actually decides the result)",
 		Run:    run,
 		Replay: replay,
 		Assumptions: []string{
